@@ -3,11 +3,13 @@ use crate::runner::PropertyDef;
 pub mod c01;
 pub mod c02;
 pub mod c03;
+pub mod c05;
 
 pub fn all() -> Vec<(&'static str, fn() -> PropertyDef)> {
     vec![
         ("C01", c01::def as fn() -> PropertyDef),
         ("C02", c02::def as fn() -> PropertyDef),
         ("C03", c03::def as fn() -> PropertyDef),
+        ("C05", c05::def as fn() -> PropertyDef),
     ]
 }
